@@ -1,12 +1,10 @@
 ------------------------------- MODULE Crypto -------------------------------
 (***************************************************************************)
-(* SHA-256 on byte strings (sequences of 0..255), returning 32 bytes.      *)
-(* The body below is a placeholder that TLC never evaluates: the operator  *)
-(* is supplied by the Java override Crypto.java (java.security).  It is    *)
-(* the one TRUSTED primitive of the real-world instance; it is tied to the *)
-(* library by the repository's own transcript / CRS / proof vectors, which *)
-(* the trace specifications reproduce through it.                          *)
+(* SHA-256 on byte strings (sequences of 0..255), returning 32 bytes.  Its *)
+(* MEANING is the pure TLA+ definition of module Sha256Pure (FIPS 180-4);  *)
+(* the Java override Crypto.java (java.security.MessageDigest) is only an  *)
+(* accelerator, compared with the definition by SelfTestSha.               *)
 (***************************************************************************)
-EXTENDS Integers, Sequences
-Sha256(bs) == CHOOSE h \in [1 .. 32 -> 0 .. 255] : FALSE
+EXTENDS Sha256Pure
+Sha256(bs) == Sha256Pure(bs)
 =============================================================================
